@@ -1,5 +1,6 @@
 use crate::internal::codepage::CodePage;
 use byteorder::{LittleEndian, ReadBytesExt, WriteBytesExt};
+use std::collections::HashSet;
 use std::io::{self, Read, Write};
 
 // ========================================================================= //
@@ -205,6 +206,38 @@ impl StringPool {
         } else {
             0
         }
+    }
+
+    /// Returns true if all of the given strings can be interned without
+    /// exceeding the number of entries that string references can address,
+    /// given that `num_released` entries will become unused first.
+    pub(crate) fn has_room_for<'a, I>(
+        &self,
+        strings: I,
+        num_released: usize,
+    ) -> bool
+    where
+        I: Iterator<Item = &'a str>,
+    {
+        let max_entries = if self.long_string_refs {
+            MAX_STRING_REF as usize
+        } else {
+            u16::MAX as usize
+        };
+        let mut new_strings: HashSet<&str> =
+            strings.filter(|string| !string.is_empty()).collect();
+        if self.strings.len() + new_strings.len() <= max_entries {
+            return true;
+        }
+        let mut num_unused = num_released;
+        for (string, refcount) in self.strings.iter() {
+            if *refcount == 0 {
+                num_unused += 1;
+            } else if *refcount < u16::MAX {
+                new_strings.remove(string.as_str());
+            }
+        }
+        self.strings.len() + new_strings.len() <= max_entries + num_unused
     }
 
     /// Inserts a string into the pool, or increments its refcount if it's
